@@ -126,7 +126,8 @@ RegOpts == {"tight", "loose", "cap"}
 PlsOpts == {"default", "tol2", "tol1", "cap"}
 MaxIter(opt) == CASE opt = "cap" -> 2 [] opt \in {"tight", "loose"} -> 40 [] OTHER -> 200
 \* the forms in which new data is handed to predict / transform (values are the same small integers)
-RegDataForms == {"float32", "int64", "int32", "uint8", "fortran", "strided"}     \* besides float64, C order
+\* "negzero" / "subnormal": every 0 of the integer samples replaced by -0.0 / by 5e-324 (values equal to 0 for every clause)
+RegDataForms == {"float32", "int64", "int32", "uint8", "fortran", "strided", "negzero", "subnormal"}     \* besides float64, C order
 PlsDataForms == {"fortran", "strided"}          \* CP_PLSR centres the data in place: floating-point arrays only
 \* UNITS: X is handed over multiplied by 2^ux and the targets by 2^uy (powers of two: exact).  The events log every
 \* quantity in the configuration's own units (scores / 2^ux, predictions / 2^uy, weights * 2^ux / 2^uy -- exact
@@ -141,21 +142,29 @@ FitForms == {"f64", "x32", "xint", "reg32", "reg64", "xF", "xmoved", "xstrided",
 PlsLayouts == {"C", "F", "moved", "strided", "ro"}          \* of both X and Y handed to CP_PLSR.fit
 \* exact zeros / exact ties in the DATA of CP_PLSR: "contrast": the last mode has size 2 and X[..., 1] = -X[..., 0]
 \* exactly (a loading (c, -c) whose sum is exactly 0); "zerofeat": one feature is identically 0 (a zero loading entry)
-PlsData == {"generic", "contrast", "zerofeat"}
+\* "selfy": the targets ARE the samples (fit(X, X), the very same array object; X of order 2)
+PlsData == {"generic", "contrast", "zerofeat", "selfy"}
+\* CALL FORM of the constructor and of fit / predict / transform: "std" as elsewhere (first argument positional, options by
+\* keyword), "pos" every argument positional in the published order, "kw" every argument by its published name.
+\* The harness holds the published names / order in a frozen table.  Rotated over the configurations:
+CallForms == <<"std", "pos", "kw">>
+RegCallOf(c) == CallForms[((c.n + c.rank + Len(c.xs) + Len(c.ys) + c.reg) % 3) + 1]
+PlsCallOf(c) == CallForms[((c.n + c.ny + c.nc + Len(c.xs)) % 3) + 1]
+WithCall(c) == IF c.kind = "reg" THEN ("call" :> RegCallOf(c)) @@ c ELSE IF c.kind = "pls" THEN ("call" :> PlsCallOf(c)) @@ c ELSE c
 ContrastOK(xs) == Len(xs) >= 2 /\ xs[Len(xs)] = 2
 \* SIZE regime of CP_PLSR: one shape with more than 50 000 features per sample (few samples, unstructured data)
 BigShapes == {<<40, 40, 32>>}
 NRegPairs == IF FullCross THEN NSamples \X Regs ELSE {<<6, 1>>, <<9, 10>>, <<12, 100>>}
 PlsN(ny, nc) == IF FullCross THEN NSamples ELSE {<<6, 9, 12>>[((ny + nc) % 3) + 1]}
 ValidReg(c) ==
-    /\ c.model \in {"cp", "tucker"} /\ c.n \in NSamples /\ c.xs \in SampleShapes /\ c.reg \in Regs /\ c.k \in 1..Draws
+    /\ c.model \in {"cp", "tucker"} /\ c.n \in NSamples \cup {1} /\ c.call = RegCallOf(c) /\ c.xs \in SampleShapes /\ c.reg \in Regs /\ c.k \in 1..Draws
     /\ c.opt \in RegOpts /\ <<c.ux, c.uy>> \in UnitPairs /\ c.ff \in FitForms
     /\ IF c.model = "cp" THEN c.ys \in TargetShapes /\ c.rank \in 1..3 /\ c.ranks = <<>>
        ELSE c.ys = <<>> /\ c.rank \in 1..3 /\ c.ranks = TuckerRanks(c.xs, c.rank)
 WeightShape(c) == c.xs \o c.ys
-ValidPls(c) == /\ c.n \in NSamples /\ c.xs \in SampleShapes \cup BigShapes /\ c.ny \in 0..3 /\ c.nc \in 1..3 /\ c.k \in 1..PlsDraws
+ValidPls(c) == /\ c.n \in NSamples \cup {2} /\ c.call = PlsCallOf(c) /\ c.xs \in SampleShapes \cup BigShapes /\ c.ny \in 0..3 /\ c.nc \in 1..3 /\ c.k \in 1..PlsDraws
                /\ c.opt \in PlsOpts /\ <<c.ux, c.uy>> \in UnitPairs /\ c.lay \in PlsLayouts /\ c.dat \in PlsData
-               /\ (c.dat = "contrast" => ContrastOK(c.xs))
+               /\ (c.dat = "contrast" => ContrastOK(c.xs)) /\ (c.dat = "selfy" => Len(c.xs) = 1 /\ c.ny = c.xs[1])
 YCols(c) == IF c.ny = 0 THEN 1 ELSE c.ny      \* ny = 0: Y given as a vector
 
 -----------------------------------------------------------------------------
@@ -207,6 +216,8 @@ CfgsOf(sd) ==
                     ux |-> u[1], uy |-> u[2], ff |-> "f64", k |-> 1] : ys \in TargetShapes, r \in UnitRanks, u \in UnitPairs \ {<<0, 0>>}}
             \cup {[kind |-> "reg", model |-> "cp", n |-> 9, xs |-> sd.xs, ys |-> ys, rank |-> r, ranks |-> <<>>, reg |-> 10, opt |-> "tight",
                     ux |-> 0, uy |-> 0, ff |-> f, k |-> 1] : ys \in TargetShapes, r \in UnitRanks, f \in FitForms \ {"f64"}}
+            \cup {[kind |-> "reg", model |-> "cp", n |-> 1, xs |-> sd.xs, ys |-> ys, rank |-> r, ranks |-> <<>>, reg |-> 10, opt |-> "tight",
+                    ux |-> 0, uy |-> 0, ff |-> "f64", k |-> 1] : ys \in TargetShapes, r \in UnitRanks}          \* a single sample
       [] sd.fam = "tucker" ->
             {[kind |-> "reg", model |-> "tucker", n |-> nr[1], xs |-> sd.xs, ys |-> <<>>, rank |-> r, ranks |-> TuckerRanks(sd.xs, r), reg |-> nr[2], opt |-> o,
               ux |-> u[1], uy |-> u[2], ff |-> "f64", k |-> k] :
@@ -215,6 +226,8 @@ CfgsOf(sd) ==
                     ux |-> u[1], uy |-> u[2], ff |-> "f64", k |-> 1] : r \in UnitRanks, u \in UnitPairs \ {<<0, 0>>}}
             \cup {[kind |-> "reg", model |-> "tucker", n |-> 9, xs |-> sd.xs, ys |-> <<>>, rank |-> r, ranks |-> TuckerRanks(sd.xs, r), reg |-> 10, opt |-> "tight",
                     ux |-> 0, uy |-> 0, ff |-> f, k |-> 1] : r \in UnitRanks, f \in FitForms \ {"f64"}}
+            \cup {[kind |-> "reg", model |-> "tucker", n |-> 1, xs |-> sd.xs, ys |-> <<>>, rank |-> r, ranks |-> TuckerRanks(sd.xs, r), reg |-> 10, opt |-> "tight",
+                    ux |-> 0, uy |-> 0, ff |-> "f64", k |-> 1] : r \in UnitRanks}
       [] sd.fam = "plsbig" ->
             {[kind |-> "pls", n |-> 6, xs |-> sd.xs, ny |-> 2, nc |-> nc, opt |-> "default", ux |-> 0, uy |-> 0, lay |-> "C", dat |-> "generic", k |-> 1] : nc \in {1, 2}}
       [] sd.fam = "pls" ->
@@ -222,8 +235,12 @@ CfgsOf(sd) ==
                         n \in PlsN(ny, nc), o \in PlsOpts, k \in 1..PlsDraws} : ny \in 0..3, nc \in 1..3}
             \cup {[kind |-> "pls", n |-> 9, xs |-> sd.xs, ny |-> ny, nc |-> nc, opt |-> "default", ux |-> 0, uy |-> 0, lay |-> l, dat |-> "generic", k |-> 1] :
                         ny \in (IF FullCross THEN 0..3 ELSE {0, 2}), nc \in (IF FullCross THEN 2..3 ELSE {3}), l \in PlsLayouts \ {"C"}}
+            \cup {[kind |-> "pls", n |-> 2, xs |-> sd.xs, ny |-> ny, nc |-> nc, opt |-> "default", ux |-> 0, uy |-> 0, lay |-> "C", dat |-> "generic", k |-> 1] :
+                        ny \in {0, 2}, nc \in {1}}      \* two samples: the centred data have rank 1, one component is all there is
+            \cup {[kind |-> "pls", n |-> 9, xs |-> sd.xs, ny |-> sd.xs[1], nc |-> nc, opt |-> "default", ux |-> 0, uy |-> 0, lay |-> "C", dat |-> "selfy", k |-> 1] :
+                        nc \in (IF Len(sd.xs) = 1 /\ sd.xs[1] <= 3 THEN 1..3 ELSE {})}
             \cup {[kind |-> "pls", n |-> 9, xs |-> sd.xs, ny |-> ny, nc |-> nc, opt |-> "default", ux |-> 0, uy |-> 0, lay |-> "C", dat |-> d, k |-> 1] :
-                        ny \in {0, 2}, nc \in 1..2, d \in {x \in PlsData \ {"generic"} : x = "contrast" => ContrastOK(sd.xs)}}
+                        ny \in {0, 2}, nc \in 1..2, d \in {x \in {"contrast", "zerofeat"} : x = "contrast" => ContrastOK(sd.xs)}}
             \cup {[kind |-> "pls", n |-> 9, xs |-> sd.xs, ny |-> ny, nc |-> nc, opt |-> "default", ux |-> u[1], uy |-> u[2], lay |-> "C", dat |-> "generic", k |-> 1] :
                         ny \in (IF FullCross THEN 0..3 ELSE {0, 2}), nc \in UnitRanks, u \in UnitPairs \ {<<0, 0>>}}
       [] sd.fam = "thm" ->
@@ -231,7 +248,7 @@ CfgsOf(sd) ==
                 ys \in TargetShapes, a \in 1..3, p \in Permutations(1..3)}
             \cup {[kind |-> "thm", what |-> w, xs |-> sd.xs, r |-> r, a |-> a] : w \in {"cp", "tucker"}, r \in 1..3, a \in 1..3}
 Init == cfg \in Seeds
-Next == cfg.kind = "seed" /\ cfg' \in CfgsOf(cfg)
+Next == cfg.kind = "seed" /\ cfg' \in {WithCall(c) : c \in CfgsOf(cfg)}
 Spec == Init /\ [][Next]_cfg
 SpecOK ==
     CASE cfg.kind = "reg" -> ValidReg(cfg)
